@@ -1,5 +1,11 @@
 // C03: fiber mutex. Trials of F fibers x M mutexes doing lock/trylock, sections with yields/sleeps inside.
 #include "fb_common.h"
+// under TSan the harness-side occupancy counter must not itself create happens-before edges between owners
+#ifdef VP_TSAN
+#define OCC_ORDER memory_order_relaxed
+#else
+#define OCC_ORDER memory_order_seq_cst
+#endif
 #include "fiber_mutex.h"
 
 #define MAXM 3
@@ -39,11 +45,11 @@ static void* hammer_locker(void* a) {
   s->a = 0;
   for (i = 0; i < iters * 40; ++i) {
     FB_BLOCKING(s, "C03 fiber_mutex_lock", fiber_mutex_lock(&m->mu));
-    const int prev = atomic_fetch_add(&m->occ, 1);
+    const int prev = atomic_fetch_add_explicit(&m->occ, 1, OCC_ORDER);
     if (prev != 0) vp_violation("C03", "mutex:two-owners", "trial %d (hammer): fiber %d acquired the mutex while %d other fiber(s) are inside", trial, s->id, prev);
     vp_payload_section(m, s->id);
     vp_payload_section_end(m);
-    atomic_fetch_sub(&m->occ, 1);
+    atomic_fetch_sub_explicit(&m->occ, 1, OCC_ORDER);
     fiber_mutex_unlock(&m->mu);
     vp_add(c_sections, 1);
   }
@@ -56,11 +62,11 @@ static void* hammer_trylocker(void* a) {
   long n = 0;
   while (atomic_load(&hammer_lockers_left) > 0) {
     if (fiber_mutex_trylock(&m->mu) == FIBER_SUCCESS) {
-      const int prev = atomic_fetch_add(&m->occ, 1);
+      const int prev = atomic_fetch_add_explicit(&m->occ, 1, OCC_ORDER);
       if (prev != 0) vp_violation("C03", "mutex:two-owners", "trial %d (hammer): trylock by fiber %d succeeded while %d other fiber(s) are inside", trial, s->id, prev);
       vp_payload_section(m, s->id);
       vp_payload_section_end(m);
-      atomic_fetch_sub(&m->occ, 1);
+      atomic_fetch_sub_explicit(&m->occ, 1, OCC_ORDER);
       fiber_mutex_unlock(&m->mu);
       vp_add(c_try_ok, 1);
       vp_add(c_sections, 1);
@@ -132,7 +138,7 @@ static void* mutex_fiber(void* a) {
     }
     s->a = (long)(m - mx);
     if (!got) FB_BLOCKING(s, "C03 fiber_mutex_lock", fiber_mutex_lock(&m->mu));
-    const int prev = atomic_fetch_add(&m->occ, 1);
+    const int prev = atomic_fetch_add_explicit(&m->occ, 1, OCC_ORDER);
     if (prev != 0)
       vp_violation("C03", "mutex:two-owners", "trial %d: fiber %d acquired mutex %d (%s) while %d other fiber(s) are inside", trial, s->id,
                    (int)(m - mx), got ? "trylock" : "lock", prev);
@@ -148,7 +154,7 @@ static void* mutex_fiber(void* a) {
       fb_spin(&s->rng, 40);
     }
     vp_payload_section_end(m);
-    atomic_fetch_sub(&m->occ, 1);
+    atomic_fetch_sub_explicit(&m->occ, 1, OCC_ORDER);
     FB_BLOCKING(s, "C03 fiber_mutex_unlock", fiber_mutex_unlock(&m->mu));
     atomic_fetch_add(&total_sections, 1);
     vp_add(c_sections, 1);
